@@ -48,7 +48,7 @@ def sig(b):
     # role of the plan item that produced the input: the field role for single-field items, else the archetype
     # (prefix / chunkedit / pair / havoc). Huge-allocation findings are keyed by (requesting function, role), so
     # a second unchecked allocation in the same function reached through another kind of field is not masked.
-    role = r.get("role") if arch in ("chunk", "array", "string") else arch
+    role = r.get("role") if arch in ("chunk", "array", "string", "token") else arch
     return {"entry": r.get("entry"), "outcome": outcome, "key": key, "format": r.get("format"),
             "role": role, "field": r.get("field"), "arch": arch}
 
